@@ -117,6 +117,13 @@ func cmdCheck(args []string) int {
 		}
 		units = append(units, p.encodeUnit(c))
 	}
+	for _, sc := range p.CS.Scans {
+		for _, pr := range sc.Props {
+			if pr == *prop {
+				units = append(units, p.runScan(sc))
+			}
+		}
+	}
 	claims := loadClaims(*prop)
 	known := loadKnown()
 	kfByObl := map[string]KnownFinding{}
